@@ -79,7 +79,41 @@ def configs(tier, seed):
         out.append(dict(base, name=f"pipeline-penalty-{tag}", kind="pipeline",
                         penalties=[{"source": "s1", "source_intervals": [["lo", "hi"]], "target": "s3", "target_intervals": [[1.0, 4.0]],
                                     "parameter": "pen1"}]))
+    # several interval items with different (concrete) intervals side by side: no item may act beyond its own interval
+    A3 = [0.0, 1.0, 2.0]
+    for linked in (False, True):
+        dss = [{"label": "d1", "mc": ["m1"], "maxis": A3 + [3.0], "gaxis": [1.0, 2.0, 3.0, 4.0]}]
+        if linked:
+            dss.append({"label": "d2", "mc": ["m1"], "maxis": A3, "gaxis": [2.0, 3.0, 4.0, 5.0], "scale": "sc2"})
+        base = {"mcs": {"m1": {"labels": ["s1", "s2", "s3", "s4"]}}, "datasets": dss, "groups": {"default": {"link_clp": linked}}}
+        tag = "linked" if linked else "unlinked"
+        out.append(dict(base, name=f"multi-two-relations-{tag}", kind="multi",
+                        relations=[{"source": "s1", "target": "s2", "parameter": "rel1", "interval": [1.0, 2.0]},
+                                   {"source": "s1", "target": "s3", "parameter": "rel2", "interval": [3.0, 4.0]}]))
+        out.append(dict(base, name=f"multi-relation-zero-only-{tag}", kind="multi",
+                        relations=[{"source": "s4", "target": "s2", "parameter": "rel1", "interval": [[1.0, 1.0], [4.0, INF]]}],
+                        constraints=[{"type": "zero", "target": "s3", "interval": [2.0, 3.0]},
+                                     {"type": "only", "target": "s1", "interval": [-INF, 3.0]}]))
+        out.append(dict(base, name=f"multi-two-penalties-{tag}", kind="multi",
+                        penalties=[{"source": "s1", "source_intervals": [[1.0, 2.0]], "target": "s2", "target_intervals": [[3.0, INF]], "parameter": "pen1"},
+                                   {"source": "s3", "source_intervals": [[4.0, 2.6]], "target": "s4", "target_intervals": [[1.0, 1.4], [3.6, 9.0]],
+                                    "parameter": "pen2"}]))
     return out
+
+
+def _multi(cfg, rec):
+    """Real pipeline, concrete intervals: every linear problem / penalty equals the documented one (C02 obligations per index)."""
+    from harness import c02_objective as c02
+
+    for ctx, src, stubs, kind, out in c02.symbolic_run(cfg, rec):
+        rec.witness_path(ctx)
+        wit = lambda mm: {"env": model_env(mm)}  # noqa: E731
+        if kind == "exc":
+            rec.unexpected(ctx, f"pipeline raised {type(out).__name__}: {out}", "multi:exception", wit)
+            continue
+        scheme, optimizer, pen, _ = out
+        c02.check_objective(cfg, rec, ctx, src, c02.ordered_calls(stubs), pen, fp_prefix="multi")
+        rec.want_sample() and rec.sample({"config": cfg["name"], "columns_per_problem": [c["matrix"].shape[1] for c in c02.ordered_calls(stubs)]})
 
 
 def run_config(cfg, rec):
@@ -88,6 +122,8 @@ def run_config(cfg, rec):
     import glotaran.optimization.matrix_provider as mp
 
     rec.assume_note("axes strictly increasing; nearest-point semantics: Inside <= Affected <= Hull, ties either way")
+    if cfg["kind"] == "multi":
+        return _multi(cfg, rec)
     with Patcher() as p:
         f = SymNP()
         for m in (dp, ep, mp):
@@ -745,6 +781,8 @@ def concrete(cfg, env):
         return {"w": [float(x) for x in np.asarray(w).flat]}
     if k == "pipeline":
         return {"ok": not _f_pipeline(cfg, env)[0]}
+    if k == "multi":
+        return {"ok": True}
     return {}
 
 
@@ -775,6 +813,10 @@ def _f_reduce(cfg, env):
 def replay(data):
     cfg, env = data["cfg"], data["env"]
     k = cfg["kind"]
+    if k == "multi":
+        from harness import c02_objective as c02
+
+        return c02.replay({"cfg": cfg, "env": {}})
     from glotaran.optimization.data_provider import DataProvider
 
     if k == "applies":
